@@ -865,7 +865,7 @@ def generate(unit_path, extra_tail=None):
     with open(unit_path, encoding='utf-8') as f:
         text0 = f.read()
     if extra_tail:
-        k = text0.rindex('} // verus!')
+        k = text0.rindex('} // verus!') if '} // verus!' in text0 else text0.rindex('// @extra-items-here')
         text0 = text0[:k] + extra_tail + '\n' + text0[k:]
     lines = text0.split('\n')
     out = []
